@@ -61,6 +61,29 @@ def gen_case(rng, frontend=None):
     else:
         chunks = frames
         per_chunk = [[m] for m in meta]
+    if fe in frontends.STREAM_FRONTENDS and framer != 'tls' and rng.random() < 0.3:
+        # one request cut across two reads
+        cand = [j for j, ms in enumerate(per_chunk) if len(ms) == 1 and len(chunks[j]) > 1]
+        if cand:
+            j = rng.choice(cand)
+            k = rng.randrange(1, len(chunks[j]))
+            chunks = chunks[:j] + [chunks[j][:k], chunks[j][k:]] + chunks[j + 1:]
+            per_chunk = per_chunk[:j] + [[], per_chunk[j]] + per_chunk[j + 1:]
+            glued = j          # no idle timeout between the two halves
+        else:
+            glued = None
+    else:
+        glued = None
+    if fe == 'syncTcp' and rng.random() < 0.4:
+        # the connection sits idle past the socket's receive timeout now and then (chunk None)
+        for _ in range(rng.choice([1, 1, 2])):
+            pos = rng.randrange(0, len(chunks) + 1)
+            if glued is not None and pos == glued + 1:
+                continue
+            chunks = chunks[:pos] + [None] + chunks[pos:]
+            per_chunk = per_chunk[:pos] + [[]] + per_chunk[pos:]
+            if glued is not None and pos <= glued:
+                glued += 1
     return dict(frontend=fe, framer=framer, single=single, units=units, ignore_missing=ignore, broadcast=bcast,
                 chunks=chunks, reqs=reqs, per_chunk=per_chunk)
 
